@@ -157,6 +157,9 @@ impl NetEnv for Env {
         let mut g = self.m.lock().unwrap();
         let from = g.socks[sock as usize].addr;
         g.events.push(Event::SendTo { actor: sock as usize, dst, bytes: buf.to_vec() });
+        if dst == addr_of(3) {
+            return Err(io::Error::new(io::ErrorKind::Other, "network unreachable"));
+        }
         if let Some(d) = g.socks.iter_mut().find(|s| s.addr == dst) {
             d.inbox.push_back((from, buf.to_vec()));
         }
@@ -211,7 +214,8 @@ fn cmds(script: Script, kind: &Kind) -> Vec<UCmd> {
     match (script, kind) {
         (Script::A, Kind::Start) => vec![Set(0, 5, true), Send(1, 1)],
         (Script::A, Kind::Msg { msg: 1, .. }) => vec![Send(1, 2)],
-        (Script::A, Kind::Msg { msg: 2, .. }) => vec![Cancel(0), Send(1, 3), Send(2, 4)],
+        // actor 3's address is unreachable (send_to fails): the remaining commands must still be carried out
+        (Script::A, Kind::Msg { msg: 2, .. }) => vec![Cancel(0), Send(1, 3), Send(2, 4), Send(3, 5), Send(1, 6), Set(1, 3, false)],
         (Script::A, Kind::Msg { msg: 3, .. }) => vec![Set(0, 7, false)],
         (Script::A, Kind::Timeout(0)) => vec![Send(1, 9), Set(1, 0, false)],
         (Script::A, Kind::Timeout(1)) => vec![],
@@ -221,7 +225,7 @@ fn cmds(script: Script, kind: &Kind) -> Vec<UCmd> {
         (Script::B, Kind::Msg { msg: 3, .. }) => vec![Set(0, 1, false), Set(0, 20, true)],
         (Script::B, Kind::Timeout(t)) => vec![Send(1, 10 + *t)],
         (Script::C, Kind::Start) => vec![],
-        (Script::C, Kind::Msg { msg: 1, .. }) => vec![Send(1, 1), Send(1, 1)],
+        (Script::C, Kind::Msg { msg: 1, .. }) => vec![Send(1, 1), Send(1, UNSERIALIZABLE), Send(1, 1), Set(1, 2, false)],
         (Script::C, Kind::Msg { msg: 2, .. }) => vec![Set(0, 4, true), Cancel(0), Set(0, 6, true)],
         (Script::C, Kind::Msg { msg: 3, .. }) => vec![Cancel(0)],
         (Script::C, Kind::Timeout(_)) => vec![Send(2, 7)],
@@ -289,7 +293,12 @@ impl Actor for Probe {
     }
 }
 
+/// a message that cannot be serialized: the runtime must skip it and go on with the remaining commands
+const UNSERIALIZABLE: u8 = 77;
 fn ser(m: &u8) -> Result<Vec<u8>, String> {
+    if *m == UNSERIALIZABLE {
+        return Err("unserializable".into());
+    }
     Ok(vec![*m, 0xA5])
 }
 fn de(b: &[u8]) -> Result<u8, String> {
@@ -495,7 +504,12 @@ pub fn check_log(scripts: &[Script], log: &RunLog) -> Vec<(String, String)> {
                     calls += 1;
                     for c in cmds(scripts[a], kind) {
                         match c {
-                            UCmd::Send(d, m) => expected_sends.push_back((addr_of(d), ser(&m).unwrap())),
+                            UCmd::Send(d, m) => {
+                                // an unserializable message produces no datagram
+                                if let Ok(b) = ser(&m) {
+                                    expected_sends.push_back((addr_of(d), b));
+                                }
+                            }
                             UCmd::Set(t, ms, _) => {
                                 armed.insert(t, (*clock, ms as u128 * 1_000_000));
                             }
